@@ -93,6 +93,7 @@ type lifetime struct {
 	opsInFlight  int
 	lastWriteSeq int // seq of the last block put finalizer or refresh (any data-changing event)
 	final        *crashPoint
+	snap         func(why string) *crashPoint // snapshot of the media right now
 }
 
 type lifetimeOpts struct {
@@ -172,6 +173,7 @@ func runLifetime(c *sim.RunCtx, pp *persistPlan, m *media, o *lifetimeOpts) *lif
 			cp := &crashPoint{Step: s.Steps, T: s.Now(), Data: d, Index: i, Dir: dir, Allocs: w.allocs(), Why: why}
 			return cp
 		}
+		lt.snap = takePoint
 		s.StepHook = func() {
 			if o.shutdownAt > 0 && s.Steps == o.shutdownAt && e.shutdownSeq == 0 {
 				e.shutdownSeq = s.Steps
